@@ -667,11 +667,15 @@ def drive(rec, table, b, families, rng, exhaustive_queries, nsub=10, nmulti=12, 
         pairs = pick_pairs(N, rng, 150)
         if table.tag.startswith('marathon'):
             # tens of thousands of distinct argument sets on ONE lattice object, then the first ones again
-            first = [(rng.randrange(N), rng.randrange(N)) for _ in range(300)]
-            many = first + [(rng.randrange(N), rng.randrange(N)) for _ in range(90000)] + first
-            for i, j in many:
-                T(rec.joinmeet, 'join', 'nary', [i, j])
-                T(rec.joinmeet, 'meet', 'op', [i, j])
+            def tri():
+                return [rng.randrange(N) for _ in range(rng.choice((2, 3, 3, 4)))]
+            first = [tri() for _ in range(400)]
+            many = first + [tri() for _ in range(100000)] + first
+            for idxs in many:
+                T(rec.joinmeet, 'join', 'nary', idxs)
+            for idxs in first[:200]:
+                T(rec.joinmeet, 'meet', 'nary', idxs)
+                T(rec.joinmeet, 'join', 'op', idxs[:2])
         for i, j in pairs:
             for name in ('join', 'meet'):
                 T(rec.joinmeet, name, 'nary', [i, j])
